@@ -307,3 +307,43 @@ def r_piecewise_cont(A, ctx, scope, rule="R-PIECEWISE-CONT"):
                              f"documented (continuous) loss / derivative") if bad else "",
                        loc=f"{f.module.relpath}:{node.lineno}")
     ctx.floor(rule, n, scope.get("floor", 3))
+
+
+# --------------------------------------------------------------------------- R-MSGNAMES
+def r_msgnames(A, ctx, scope, rule="R-MSGNAMES"):
+    ctx.rule(rule, "an explanatory refusal names what was looked up: in the validation helpers, when a "
+             "`for a in names: if hasattr(obj, KEY(a, v...)): break / else: record(...)` lookup fails, the "
+             "recorded text is built from every variable v the looked-up key depends on (the storage "
+             "suffix): otherwise the error for CSC input names the dense method, which exists")
+    n = 0
+    mod = A.prog.modules.get("skglm.utils.validation")
+    if mod is None:
+        raise AnalysisError("skglm.utils.validation vanished")
+    for f in mod.functions.values():
+        for loop in ast.walk(f.node):
+            if not (isinstance(loop, ast.For) and loop.orelse):
+                continue
+            keys = [c for c in ast.walk(loop) if isinstance(c, ast.Call) and isinstance(c.func, ast.Name)
+                    and c.func.id == "hasattr" and len(c.args) == 2]
+            if not keys:
+                continue
+            tgt = {x.id for x in ast.walk(loop.target) if isinstance(x, ast.Name)}
+            need = set()
+            for k in keys:
+                need |= _names(k.args[1]) - tgt
+            for st in loop.orelse:
+                for call in ast.walk(st):
+                    if isinstance(call, ast.Call) and isinstance(call.func, ast.Attribute) and call.func.attr == "append":
+                        n += 1
+                        have = set()
+                        for a in call.args:
+                            have |= _names(a)
+                        miss = sorted(need - have)
+                        ctx.ob(rule, f"{f.fq}::{ast.unparse(call)[:60]}", not miss,
+                               what=f"{f.name}: the failed lookup `{ast.unparse(keys[0])}` depends on "
+                                    f"`{', '.join(miss)}` but the recorded missing name "
+                                    f"`{ast.unparse(call)[:70]}` does not: for sparse input the error names the "
+                                    f"dense method (which exists) instead of the missing `*_sparse` one - the "
+                                    f"refusal is no longer explanatory",
+                               loc=f"{f.module.relpath}:{call.lineno}")
+    ctx.floor(rule, n, scope.get("floor", 1))
